@@ -75,10 +75,10 @@ require (
 	github.com/steakknife/hamming v0.0.0-20180906055917-c99c65617cd3 // indirect
 	github.com/stretchr/objx v0.2.0 // indirect
 	github.com/stretchr/testify v1.7.0 // indirect
-	github.com/switcheo/tendermint v0.34.14-2 // indirect
+	github.com/switcheo/tendermint v0.34.14-2
 	github.com/tendermint/go-amino v0.15.1 // indirect
 	github.com/tendermint/iavl v0.14.0 // indirect
-	github.com/tendermint/tendermint v0.33.7 // indirect
+	github.com/tendermint/tendermint v0.33.7
 	github.com/tendermint/tm-db v0.5.1 // indirect
 	github.com/valyala/bytebufferpool v1.0.0 // indirect
 	github.com/zquestz/grab v0.0.0-20190224022517-abcee96e61b1 // indirect
